@@ -1376,4 +1376,150 @@ theorem vaListUntilZero_none (b : Bytes) (ps : Nat) :
     rw [ih (off + ps) (fun j hj => by rw [e]; exact h (j + 1) (by omega))]
     rfl
 
+/-! ### exact success conditions of `dbg`, `pgo`, `unwind_info` -/
+
+theorem dbgEntry_ok_iff (v : View) (d : Nat) (r : Ref) :
+    dbgEntry v d = .ok r ↔
+      ∃ data, dirData v d = some data ∧ 12 ≤ data.len ∧ (v.img.base + data.off) % 4 = 0 ∧ r = ⟨data.off, 12, 4⟩ := by
+  unfold dbgEntry
+  cases hd : dirData v d with
+  | none =>
+    simp only
+    constructor
+    · intro h; cases h
+    · rintro ⟨data, h, _⟩; cases h
+  | some data =>
+    obtain ⟨hin, _⟩ := dirData_sound hd
+    simp only
+    by_cases h12 : data.len < 12
+    · rw [if_pos h12]
+      constructor
+      · intro h; cases h
+      · rintro ⟨data', h, h', _⟩; cases h; omega
+    · rw [if_neg h12]
+      by_cases hm : (v.img.base + data.off) % 4 ≠ 0
+      · rw [if_pos hm]
+        constructor
+        · intro h; cases h
+        · rintro ⟨data', h, _, h', _⟩; cases h; exact absurd h' hm
+      · rw [if_neg hm]
+        have hm' : (v.img.base + data.off) % 4 = 0 := by omega
+        rw [rawRef_eq_ok (by omega) hm']
+        constructor
+        · intro h; cases h; exact ⟨data, rfl, by omega, hm', rfl⟩
+        · rintro ⟨data', h, _, _, rfl⟩; cases h; rfl
+
+theorem pgoEntry_ok_iff (v : View) (d : Nat) (r : Ref) :
+    pgoEntry v d = .ok r ↔
+      ∃ data, dirData v d = some data ∧ 4 ≤ data.len ∧ (v.img.base + data.off) % 4 = 0 ∧
+        r = ⟨data.off, 4 * (data.len / 4), 4⟩ := by
+  unfold pgoEntry
+  cases hd : dirData v d with
+  | none =>
+    simp only
+    constructor
+    · intro h; cases h
+    · rintro ⟨data, h, _⟩; cases h
+  | some data =>
+    obtain ⟨hin, _⟩ := dirData_sound hd
+    simp only
+    by_cases h4 : data.len < 4
+    · rw [if_pos h4]
+      constructor
+      · intro h; cases h
+      · rintro ⟨data', h, h', _⟩; cases h; omega
+    · rw [if_neg h4]
+      by_cases hm : (v.img.base + data.off) % 4 ≠ 0
+      · rw [if_pos hm]
+        constructor
+        · intro h; cases h
+        · rintro ⟨data', h, _, h', _⟩; cases h; exact absurd h' hm
+      · rw [if_neg hm]
+        have hm' : (v.img.base + data.off) % 4 = 0 := by omega
+        rw [rawRef_eq_ok (by omega) hm']
+        constructor
+        · intro h; cases h; exact ⟨data, rfl, by omega, hm', rfl⟩
+        · rintro ⟨data', h, _, _, rfl⟩; cases h; rfl
+
+/-- the typed errors of `dbg` / `pgo`, in the order the code tests them (`minLen` = 12 / 4) -/
+theorem dbgEntry_errors (v : View) (d : Nat) :
+    (dirData v d = none → dbgEntry v d = .err .bounds) ∧
+    (∀ data, dirData v d = some data → data.len < 12 → dbgEntry v d = .err .bounds) ∧
+    (∀ data, dirData v d = some data → 12 ≤ data.len → (v.img.base + data.off) % 4 ≠ 0 →
+      dbgEntry v d = .err .misaligned) := by
+  unfold dbgEntry
+  refine ⟨fun h => by rw [h], fun data h hl => by rw [h]; simp only; rw [if_pos hl], fun data h hl hm => ?_⟩
+  rw [h]; simp only; rw [if_neg (by omega), if_pos hm]
+
+theorem pgoEntry_errors (v : View) (d : Nat) :
+    (dirData v d = none → pgoEntry v d = .err .bounds) ∧
+    (∀ data, dirData v d = some data → data.len < 4 → pgoEntry v d = .err .bounds) ∧
+    (∀ data, dirData v d = some data → 4 ≤ data.len → (v.img.base + data.off) % 4 ≠ 0 →
+      pgoEntry v d = .err .misaligned) := by
+  unfold pgoEntry
+  refine ⟨fun h => by rw [h], fun data h hl => by rw [h]; simp only; rw [if_pos hl], fun data h hl hm => ?_⟩
+  rw [h]; simp only; rw [if_neg (by omega), if_pos hm]
+
+theorem wrapEntry_eq_bind {α : Type} (f : α → Entry) (o : Out α) :
+    (o >>= fun a => Out.ok (f a)) = Spec.wrapEntry f o := by
+  cases o <;> rfl
+
+theorem unwindInfo_ok_iff (v : View) (t : Ref) (i : Nat) (im : Ref) :
+    unwindInfo v t i = .ok im ↔
+      ∃ s, v.at (.rva (rfUnwind v.b t i)) 4 1 = .ok s ∧ im = ⟨s.off, 4, 1⟩ ∧
+        4 + 2 * byteAt v.b (s.off + 2) ≤ s.len := by
+  unfold unwindInfo
+  have e : v.slice (rfUnwind v.b t i) 4 1 = v.at (.rva (rfUnwind v.b t i)) 4 1 := rfl
+  rw [e]
+  cases h : v.at (.rva (rfUnwind v.b t i)) 4 1 with
+  | ok s =>
+    obtain ⟨⟨h1, _⟩, h2, _⟩ := at_sound v _ 4 1 s h
+    simp only
+    rw [rawRef_eq_ok (by omega) (Nat.mod_one _)]
+    simp only [Out.bind_ok]
+    by_cases hc : s.len < 4 + 2 * byteAt v.b (s.off + 2)
+    · rw [if_pos hc]
+      constructor
+      · intro hh; cases hh
+      · rintro ⟨s', hs', _, hle⟩; cases hs'; omega
+    · rw [if_neg hc]
+      constructor
+      · intro hh; cases hh; exact ⟨s, rfl, rfl, by omega⟩
+      · rintro ⟨s', hs', rfl, _⟩; cases hs'; rfl
+  | err e =>
+    simp only
+    constructor
+    · intro hh; cases hh
+    · rintro ⟨s, hs, _⟩; cases hs
+  | panic x =>
+    simp only
+    constructor
+    · intro hh; cases hh
+    · rintro ⟨s, hs, _⟩; cases hs
+  | ub x =>
+    simp only
+    constructor
+    · intro hh; cases hh
+    · rintro ⟨s, hs, _⟩; cases hs
+  | diverge =>
+    simp only
+    constructor
+    · intro hh; cases hh
+    · rintro ⟨s, hs, _⟩; cases hs
+
+theorem unwindInfo_errors (v : View) (t : Ref) (i : Nat) :
+    (∀ s, v.at (.rva (rfUnwind v.b t i)) 4 1 = .ok s → s.len < 4 + 2 * byteAt v.b (s.off + 2) →
+      unwindInfo v t i = .err .bounds) ∧
+    (∀ e, v.at (.rva (rfUnwind v.b t i)) 4 1 = .err e → unwindInfo v t i = .err e) := by
+  unfold unwindInfo
+  have e : v.slice (rfUnwind v.b t i) 4 1 = v.at (.rva (rfUnwind v.b t i)) 4 1 := rfl
+  rw [e]
+  refine ⟨fun s h hc => ?_, fun e h => by rw [h]⟩
+  obtain ⟨⟨h1, _⟩, h2, _⟩ := at_sound v _ 4 1 s h
+  rw [h]
+  simp only
+  rw [rawRef_eq_ok (by omega) (Nat.mod_one _)]
+  simp only [Out.bind_ok]
+  rw [if_pos hc]
+
 end Pelite.Dirs
